@@ -124,6 +124,14 @@ func genB58Structured(t *rapid.T, label string) string {
 	g := rapid.SampledFrom([]int{5, 5, 6, 10}).Draw(t, label+"_g")
 	var sb strings.Builder
 	sb.WriteString(rapid.SampledFrom([]string{"", "", "2", "z", "5Q", "zz", "JPwcyD", "7YXq9G"}).Draw(t, label+"_head")) // JPwcyD = 58^5 area, 7YXq9G = 2^32
+	if rapid.IntRange(0, 2).Draw(t, label+"_acc") == 0 {
+		// a decoder works from the left: after the digits that spell the number A its accumulator IS A.  Let A be made
+		// of extreme machine words, then feed further groups: the multiply-and-add on those words is where carries go missing
+		words := make([]byte, 4*rapid.IntRange(1, 10).Draw(t, label+"_accwords"))
+		fillWords(t, label+"_accw", words)
+		sb.Reset()
+		sb.WriteString(refB58Encode(words))
+	}
 	for n := rapid.IntRange(1, 12).Draw(t, label+"_n"); n > 0; n-- {
 		switch rapid.IntRange(0, 6).Draw(t, label+"_gv") {
 		case 0, 1:
